@@ -334,7 +334,8 @@ def coq_eval_codes(tag, imports, code_fn, cases, shard=300, timeout=1200):
             continue
         for i, n in enumerate(nums):
             res[k * shard + i] = n
-    shutil.rmtree(d, ignore_errors=True)
+    if not os.environ.get("VERIF_KEEP_CASES"):
+        shutil.rmtree(d, ignore_errors=True)
     return res, err
 
 
